@@ -32,7 +32,7 @@ def floors(tier):
 
 def plan(tier, seed):
     q = tier == "quick"
-    return [{"kind": "ops", "cls": cls, "stream": i, "n": 70 if q else 600, "env": {"REUSE_Z3_SOLVER": str(i % 2)}} for cls in CLASSES for i in range(2 if q else 6)]
+    return [{"kind": "ops", "cls": cls, "stream": i, "n": 90 if q else 700, "env": {"REUSE_Z3_SOLVER": str(i % 2)}} for cls in CLASSES for i in range(2 if q else 6)]
 
 
 def conj(cons):
@@ -139,6 +139,48 @@ def run_shard(spec, res):
                     members.reverse()  # the simplified solver as one of the others
                 anc_idx = None
                 res.count("directed_simplify_cases")
+            directed_split = it % 12 == 3
+            if directed_split:
+                # five variables: groups of related variables are formed first, then constraints bridge them (in every
+                # order): split must end up with parts that share no variable
+                al = H.Alphabet(rng, w=3, nvars=4, nbools=0)
+                uni_vars = dict(al.vars)
+                run = api.Run(res, uni_vars, cls, PID, mode="exact" if exact else "none", cfg=cfg, keep=keep)
+                vs_ = [al.v(i) for i in range(4)]
+                rng.shuffle(vs_)
+                rel = lambda a_, b_: [rng.choice(["ult", "ule", "ne", "uge"]), a_, b_]  # noqa: E731
+                links = [rel(vs_[0], vs_[1]), rel(vs_[2], vs_[3]), rel(vs_[1], vs_[2])]
+                if rng.random() < 0.5:
+                    links.append([rng.choice(["ult", "ugt"]), vs_[3], ["bvv", rng.randrange(1, 6), 3]])
+                order = links[:]
+                if rng.random() < 0.7:
+                    rng.shuffle(order)
+                for c_ in order:
+                    if rng.random() < 0.7:
+                        run.step({"op": "add", "s": 0, "cons": [c_]})
+                    else:
+                        run.step({"op": "add", "s": 0, "cons": [c_, rel(rng.choice(vs_), rng.choice(vs_))]})
+                    if rng.random() < 0.2:
+                        run.step({"op": rng.choice(["satisfiable", "simplify"]), "s": 0, "extra": []})
+                members = [0]
+                anc_idx = None
+                res.count("directed_split_cases")
+            directed_unsat_child = it % 12 == 9
+            if directed_unsat_child:
+                # a contradiction that only the backend can see, in constraints over x alone, never asked about; copies
+                # that differ in y only; merged without the ancestor
+                run = api.Run(res, uni_vars, cls, PID, mode="exact" if exact else "none", cfg=cfg, keep=keep)
+                x_, y_ = al.v(0), al.v(1 % al.nvars)
+                run.step({"op": "add", "s": 0, "cons": [rng.choice([["eq", ["mul", x_, x_], ["bvv", 2, al.w]], ["eq", ["mul", x_, ["add", x_, ["bvv", 1, al.w]]], ["bvv", 1, al.w]], ["ult", ["or", x_, ["bvv", 4, al.w]], ["bvv", 4, al.w]]])]})
+                run.step({"op": "add", "s": 0, "cons": [["ule", y_, ["bvv", 6, al.w]]]})
+                members = [0]
+                for _ in range(rng.choice([1, 2])):
+                    run.step({"op": "branch", "s": 0})
+                    members.append(len(run.live) - 1)
+                for m in members:
+                    run.step({"op": "add", "s": m, "cons": [[rng.choice(["ne", "ugt", "ult"]), y_, ["bvv", rng.randrange(1, 6), al.w]]]})
+                anc_idx = None
+                res.count("directed_unsat_child_cases")
             if run.failed:
                 continue
             if any(run.live[m].tainted for m in members) or (anc_idx is not None and run.live[anc_idx].tainted):
@@ -147,6 +189,10 @@ def run_shard(spec, res):
             op = rng.choice(["merge", "merge", "merge_anc", "combine", "combine", "split", "split"])
             if directed_combine:
                 op = "combine"
+            if directed_split:
+                op = "split"
+            if directed_unsat_child:
+                op = rng.choice(["merge", "merge", "combine"])
             if directed_simplify:
                 op = rng.choice(["combine", "combine", "merge", "split"])
                 if op == "split" and members[0] != 0:
@@ -164,6 +210,8 @@ def run_shard(spec, res):
             nontriv = sum(1 for lv in lives if lv.cons) >= 2
             if op in ("merge", "merge_anc"):
                 conds_d = [rng.choice([["boolv", True], ["boolv", True], al.constraint(), ["eq", ["bvs", "guard3", 3], ["bvv", i, 3]], ["boolv", False]]) for i in range(len(lives))]
+                if directed_unsat_child:
+                    conds_d = [["boolv", True] if rng.random() < 0.6 else ["eq", ["bvs", "guard3", 3], ["bvv", i, 3]] for i in range(len(lives))]
                 conds = [run.b(d) for d in conds_d]
                 if op == "merge_anc":
                     anc = run.live[anc_idx]
